@@ -18,6 +18,11 @@ MANIFEST = dict(
     note='Trusts TLC, the projection (public attributes by_class, by_target, entities, spawn, Entity mapping interface) and str.casefold as the definition of case-insensitive (supplied to TLC as a table). A record is judged only if the state before the call was in order; later calls of a broken history are reported as tainted, not judged. Renaming the worldspawn and adding one entity twice are outside the explored histories. Pure-Python tree only.',
 )
 
+# clauses TLC reports for bookkeeping only: 'tainted' (the state before the call was already broken by an earlier,
+# blamed call), 'unexplained' (the call's effect on the entities is neither the modelled one nor none - free by the
+# property, the post-state is judged all the same)
+NOT_VERDICTS = ('tainted', 'unexplained')
+
 OPS = {'new', 'create_ent', 'add_ent', 'add_ents', 'remove_ent', 'ent_remove', 'set_class', 'set_name', 'update',
        'del_name', 'del_class', 'pop_name', 'pop_class', 'clear', 'copy', 'make_unique', 'iter'}
 
@@ -108,12 +113,18 @@ def run(tier: str, seed: int) -> int:
         allm = []
         total = 0
         tainted: dict = {}
+        unexplained: dict = {}
         samples = []
         for kind, p in recs:
             mism, vst = core.validate_records('VmfIndexTrace', 'VmfIndexTrace.cfg', p, work=work, timeout=3000)
             n_t = sum(1 for m in mism if m['clause'] == 'tainted')
             tainted[kind] = tainted.get(kind, 0) + n_t
-            allm += [m for m in mism if m['clause'] != 'tainted']
+            n_u = sum(1 for m in mism if m['clause'] == 'unexplained')
+            unexplained[kind] = unexplained.get(kind, 0) + n_u
+            if n_u * 2 > vst["records"]:
+                raise MachineryError(f'{kind}: {n_u} of {vst["records"]} calls did to the entities neither what the model '
+                                     f'says nor nothing: the action table of the driver and the model have drifted apart')
+            allm += [m for m in mism if m['clause'] not in NOT_VERDICTS]
             total += vst['records']
             cov['states'] += vst['states']
             cov['transitions'] += vst['transitions']
@@ -125,6 +136,7 @@ def run(tier: str, seed: int) -> int:
         cov['traces_validated_against_impl'] = total - sum(tainted.values())
         cov['records_validated'] = total
         cov['records_not_judged_tainted'] = tainted
+        cov['calls_with_outcome_outside_model'] = unexplained      # post-state judged all the same
         cov['mismatches'] = len(allm)
         cov['samples'] = samples
         cov['exhaustive'] = True
@@ -150,7 +162,7 @@ def replay(path: str) -> int:
         out = work.path('replay.ndjson')
         core.run_driver('c07_driver.py', ['replay', path, out])
         mism, _ = core.validate_records('VmfIndexTrace', 'VmfIndexTrace.cfg', out, work=work, shards=1)
-        known, new = core.classify(PROP, [sig_of(m) for m in mism if m['clause'] != 'tainted'])
+        known, new = core.classify(PROP, [sig_of(m) for m in mism if m['clause'] not in NOT_VERDICTS])
         for s in new:
             print(f'VIOLATION property={PROP} replay={path} clause={s["clause"]}')
         if not new:
